@@ -48,6 +48,10 @@ def strip_generics(s):
     return ''.join(out)
 
 
+def strip_lifetimes(s):
+    return re.sub(r"&'\w+ ", "&", s).replace("'_ ", "")
+
+
 class Fn:
     __slots__ = ("d", "crate", "id", "name", "nname", "kind", "file", "lo", "hi", "blocks", "locals",
                  "arg_count", "_succ", "_pred", "_usucc", "item", "prog", "_defs", "_closures", "_refs")
@@ -374,6 +378,18 @@ class Program:
             return [], False
         if "resolved" in f:
             fn = self.fns.get(f["resolved"])
+            if fn is None and f.get("trait") in ("core::convert::TryInto", "core::convert::Into") and len(f.get("targs", [])) == 2:
+                # blanket impls in core forward to the workspace TryFrom/From impl: T.try_into() -> U::try_from(T)
+                src, dst = f["targs"]
+                want = "TryFrom" if f["trait"].endswith("TryInto") else "From"
+                res = []
+                for im in self.impls:
+                    if (im.get("trait") or "") == "core::convert::" + want and strip_lifetimes(im["self_ty"]) == strip_lifetimes(dst) and \
+                            strip_lifetimes(im["trait_ref"]).endswith(f"{want}<{strip_lifetimes(src)}>>"):
+                        for it in im["items"]:
+                            if it["kind"] == "fn" and it["id"] in self.fns:
+                                res.append(self.fns[it["id"]])
+                return res, True
             return ([fn] if fn else []), True
         d = f["def"]
         if "trait" not in f:
